@@ -263,7 +263,8 @@ def make_secop_error(name, text):
         clsname, errtext = match.groups()
         textcls = SECoPError.clsname2class.get(clsname)
         # the class named in the text is only a refinement of the reported error class
-        if textcls and textcls.name == errcls.name:
+        # (SECoPError.format prefixes the class name only for such classes)
+        if textcls and textcls is not errcls and textcls.name == errcls.name:
             return textcls(errtext)
     return errcls(text)
 
